@@ -320,10 +320,13 @@ class EvalArm(Obligation):
                     return None if attempt else 'nomodel'
                 m, cz = cm
                 try:
+                    self._confirming = True
                     sx, stt, payload, us = native_of(cz)
                     pred = predicted_of(out, cz)
                 except Unsupported as ex:
                     return 'unsupported: ' + str(ex)
+                finally:
+                    self._confirming = False
                 if stt == 'NOWITNESS': return 'nowitness'
                 nat = stt if stt in ('PANIC', 'ERR', 'TIMEOUT') else stt + ' ' + payload
                 if pred != nat and not (pred == 'TIMEOUT' and stt == 'TIMEOUT') and not (pred.endswith('dec?') and nat.startswith('OK')):
